@@ -1130,6 +1130,10 @@ func resolveInnerFilterDependencies(
 
 			childSelect.SkipResolve = true
 			newFields = append(newFields, childSelect)
+			// The same relation may be used again further on in this filter (inside a compound branch):
+			// the join made here has to be found there, or the fields that branch needs would not be
+			// added to it, depending on the order in which the keys of the filter are visited.
+			resolvedFields = append(resolvedFields, childSelect)
 		}
 
 		childFilter, isChildFilter := value.(map[string]any)
